@@ -40,8 +40,8 @@ class DBFSURI:
                 raise NotImplementedError(
                     f"Cannot join path for {self}: {type(seg)}: {seg}"
                 )
-            if s.startswith("."):
-                s = s[1:]
+            if s.startswith("./"):
+                s = s[2:]
             if s.startswith("/"):
                 s = s[1:]
             if not uri.endswith("/"):
@@ -230,6 +230,7 @@ class DBFSStore(Store):
             return
         # This is a brute force approach that copies all the data and writes extra meta data.
         for (dds_p, key) in paths.items():
+            self._check_path(dds_p)
             # Look for the redirection file associated to this file
             # The paths are /_dds_meta/path
             redir_p = Path("_dds_meta/").joinpath("./" + dds_p)
@@ -291,6 +292,7 @@ class DBFSStore(Store):
         res = OrderedDict()
         # This is a brute force approach that copies all the data and writes extra meta data.
         for dds_p in paths:
+            self._check_path(dds_p)
             # TODO: this is the same code as sync_path, factorize
             # Look for the redirection file associated to this file
             # The paths are /_dds_meta/path
@@ -318,6 +320,13 @@ class DBFSStore(Store):
 
     def _blob_meta_path(self, key: PyHash) -> DBFSURI:
         return self._internal_dir.joinpath("blobs", key + ".meta")
+
+    def _check_path(self, dds_p: DDSPath) -> None:
+        # '.' and '..' segments would designate the location of another path.
+        if any(s in (".", "..") for s in dds_p.split("/")):
+            raise DDSException(
+                f"Path {dds_p} cannot be mapped to a location inside {self._data_dir}"
+            )
 
     def _physical_path(self, dds_p: Path) -> DBFSURI:
         return self._data_dir.joinpath(dds_p)
